@@ -59,6 +59,7 @@ NOT_ENTRIES = [b"total 12", b"total 2 -rw------- 1 root root 4096 Jan 01  2020 s
                b"=; x", b";;; y", b"type=file;size=1;modify=20200101000000;noname"]
 REPLIES = ["227 listen socket created (127,0,0,1,156,64)", "229 listen socket created (|||40000|)", '257 "/some/dir" is current',
            "227 Entering Passive Mode (10,0,0,1,4,1).", "229 Extended Passive Mode OK (|||1|)"]
+STALL_CPU_S = 3.0
 MUT_BYTES = [b"\0", b"\xff", b"\xff\xf4\xff\xf2", b"\x80", b"\xc3", b"\xe2\x82", b"\r", b"\n", b"\r\n", b" ", b"  ", b"\t", b"-", b"=", b";", b":", b"0",
              b"9" * 30, "٣".encode(), "²".encode(), b"%s", b"\\", b"/", b"..", b"(", b")", b"|", b",", b'"', b"M", b" -> "]
 
@@ -122,6 +123,8 @@ async def server_side(net, hyg, plan):
                     net.next_conn_early_data = early
                 await p.connect()
                 r0 = rng.random()
+                if plan.get("deep"):
+                    r0 = 0.0
                 if r0 < 0.5:
                     await p.cmd("USER anonymous")
                 elif r0 < 0.8:
@@ -134,19 +137,26 @@ async def server_side(net, hyg, plan):
                         pass
                 for i in range(plan["lines"]):
                     r = rng.random()
+                    if plan.get("deep"):
+                        r = 0.04
                     if r < 0.03:
                         # undecodable bytes inside the path argument of a creating command
                         line = rng.choice([b"MKD /", b"STOR /", b"APPE /", b"RNTO /", b"MKD /dir/"]) + rng.choice(
                             [b"bad\xff\xfe", b"\x80", b"caf\xe9", b"\xc3", b"a\xed\xa0\x80b", b"\xf8\x88\x80\x80\x80"])
                         if line.startswith(b"RNTO"):
                             p.writer.write(b"RNFR /dir/g.txt\r\n")
+                    elif r < 0.045:
+                        # a path of tens of thousands of components in one line below the stream limit
+                        unit = rng.choice([b"a/", b"../", b"./", b"a/../", b"//", b"a/b/../"] if not plan.get("deep") else [b"a/", b"bc/", b"a/b/../"])
+                        line = rng.choice([b"CWD ", b"MKD ", b"RMD ", b"DELE ", b"RNFR ", b"MLST ", b"LIST ", b"MLSD ", b"RETR ", b"STOR ", b"SIZE "]) + \
+                            unit * (rng.choice([20000, 40000, 64000]) // len(unit))
                     elif r < 0.06:
                         line = rng.choice(VALID_CMDS).split(b" ")[0] + b" " + b"A" * rng.choice([70000, 140000])
                     elif r < 0.1:
                         line = b"\r\n".join([b"NOOP"] * 400)
                     else:
                         line = mutate(rng, rng.choice(VALID_CMDS))
-                    end = rng.choice([b"\r\n", b"\r\n", b"\r\n", b"\n", b"\r", b""])
+                    end = rng.choice([b"\r\n", b"\r\n", b"\r\n", b"\n", b"\r", b""]) if not plan.get("deep") else b"\r\n"
                     data = line + end
                     sent.append(data[:60])
                     mon["hostile_lines"] += 1
@@ -218,6 +228,13 @@ async def server_side(net, hyg, plan):
             viol.append({"key": "hostile-session-not-released", "msg": f"{leak}; hostile lines {sent[:5]}"})
         for e in hyg.serious_loop_errors():
             viol.append({"key": "exception-reached-loop", "msg": f"{e}; hostile lines {sent[:5]}"})
+        # nothing the peer sends keeps the server's only thread to itself: CPU seconds (of this thread, so load on the machine
+        # does not count) that the callbacks of one loop iteration took, the worst over the whole case
+        mon["stall_cpu_checked"] = 1
+        if net.loop.worst_iteration_cpu > STALL_CPU_S:
+            viol.append({"key": "server-stalled-by-one-line",
+                         "msg": f"one iteration of the server's event loop took {net.loop.worst_iteration_cpu:.1f} CPU seconds (every session "
+                                f"waits meanwhile); hostile lines {[x[:24] for x in sent[:8]]}"})
         await w.stop()
         return {"violations": viol, "monitors": mon, "by": by.peer.normalized() if plan["bystander"] else None,
                 "sent": [x.hex() for x in sent[:8]]}
@@ -714,6 +731,9 @@ def gen_cases(tier, seed):
     for i in range(240 if tier == "quick" else 20000):
         cases.append({"kind": "server", "plan": {"seed": seed * 100003 + i, "lines": rng.choice([5, 20, 60]),
                                                  "bystander": names[i % len(names)] if i % 3 else None, "wft_none": i % 4 == 1}})
+    for i in range(12 if tier == "quick" else 200):
+        cases.append({"kind": "server", "plan": {"seed": seed * 977 + i, "lines": 3, "deep": True, "bystander": names[i % len(names)] if i % 2 else None,
+                                                 "wft_none": False}})
     npar = 100000 if tier == "quick" else 5000000
     per = 5000 if tier == "quick" else 50000
     for i in range(npar // per):
